@@ -44,7 +44,9 @@ func init() {
 			if name == "Concat" {
 				// long input lists of the variadic operator
 				for _, n := range []int{7, 8, 9, 16, 17} {
-					p.Jobs = append(p.Jobs, Job{Harness: "opset13.H_C15_gate", Case: map[string]interface{}{"op": name, "n": n, "nilmask": 0, "spare": n % 2}})
+					// (the leading tensors float32, the last two of any element type: a gate that compares types one by
+					// one would otherwise branch 14 ways per position)
+					p.Jobs = append(p.Jobs, Job{Harness: "opset13.H_C15_gate", Case: map[string]interface{}{"op": name, "n": n, "nilmask": 0, "spare": n % 2, "symfrom": n - 2}})
 				}
 			}
 			p.Jobs = append(p.Jobs, Job{Harness: "opset13.H_C15_registry", Case: map[string]interface{}{"op": name}})
